@@ -53,14 +53,19 @@ type vlanSim struct {
 	has       map[string]pair // model: NTE -> pair, from observed return values
 	holder    map[pair]string // model: pair -> NTE
 	freedBy   map[pair]string // pair -> NTE that last gave it up
+	origin    map[string]string // model: how the NTE came by its pair: "alloc" | "allocS" | "load"
 	loaded    bool            // history contains a LoadFromStore
+	oorReq    bool            // an out-of-range outer tag was requested through AllocateWithSTag
+	oorLoad   bool            // a pair outside the ranges was loaded
+	oorFreed  bool            // a pair whose outer tag lies outside STagRange was given up
+	oorThenPlain bool         // ... and a plain Allocate handed out a fresh pair afterwards
 	nt        bool            // a released pair was re-acquired by another NTE, or two NTEs contended for a pair
 	exhausted bool
 }
 
 func newVlanSim(cfg nexus.VLANAllocatorConfig, ntes []string) *vlanSim {
 	v := &vlanSim{h: &hist{comp: "vlan"}, cfg: cfg, a: nexus.NewVLANAllocator(cfg), ntes: ntes,
-		has: map[string]pair{}, holder: map[pair]string{}, freedBy: map[pair]string{}}
+		has: map[string]pair{}, holder: map[pair]string{}, freedBy: map[pair]string{}, origin: map[string]string{}}
 	v.h.logf("cfg S[%d-%d] C[%d-%d]", cfg.STagRange.Start, cfg.STagRange.End, cfg.CTagRange.Start, cfg.CTagRange.End)
 	return v
 }
@@ -69,12 +74,29 @@ func (v *vlanSim) inRange(p pair) bool {
 	return p.s >= v.cfg.STagRange.Start && p.s <= v.cfg.STagRange.End && p.c >= v.cfg.CTagRange.Start && p.c <= v.cfg.CTagRange.End
 }
 
+func (v *vlanSim) sInRange(s uint16) bool {
+	return s >= v.cfg.STagRange.Start && s <= v.cfg.STagRange.End
+}
+
+func (v *vlanSim) cInRange(c uint16) bool {
+	return c >= v.cfg.CTagRange.Start && c <= v.cfg.CTagRange.End
+}
+
 func (v *vlanSim) capacity() int {
 	return int(v.cfg.STagRange.End-v.cfg.STagRange.Start+1) * int(v.cfg.CTagRange.End-v.cfg.CTagRange.Start+1)
 }
 
 // freePair: a pair inside the ranges (with outer tag s if s != 0) that the model says nobody holds.
 func (v *vlanSim) freePair(s uint16) (pair, bool) {
+	if s != 0 && !v.sInRange(s) {
+		// an ISP-assigned outer tag outside the auto-allocation range: its inner tags come from CTagRange all the same
+		for ct := v.cfg.CTagRange.Start; ct <= v.cfg.CTagRange.End; ct++ {
+			if _, used := v.holder[pair{s, ct}]; !used {
+				return pair{s, ct}, true
+			}
+		}
+		return pair{}, false
+	}
 	for st := v.cfg.STagRange.Start; st <= v.cfg.STagRange.End; st++ {
 		if s != 0 && st != s {
 			continue
@@ -99,7 +121,11 @@ func (v *vlanSim) drop(n string) {
 	if p, ok := v.has[n]; ok {
 		delete(v.has, n)
 		delete(v.holder, p)
+		delete(v.origin, n)
 		v.freedBy[p] = n
+		if !v.sInRange(p.s) {
+			v.oorFreed = true
+		}
 	}
 }
 
@@ -146,12 +172,30 @@ func (v *vlanSim) step(t fataler, op vlanOp) bool {
 					return false
 				}
 			}
+			_, heldBefore := v.has[op.nte]
+			if !heldBefore {
+				// a pair handed out by plain Allocate lies inside the configured ranges
+				if !v.inRange(p) {
+					if v.h.fail(t, "out-of-range/Allocate", "Allocate(%s) handed out %s outside S[%d-%d] C[%d-%d]", op.nte, p, v.cfg.STagRange.Start, v.cfg.STagRange.End, v.cfg.CTagRange.Start, v.cfg.CTagRange.End) {
+						return false
+					}
+				}
+				if v.oorFreed {
+					v.oorThenPlain = true
+				}
+			}
 			if v.take(t, op.nte, p, "Allocate") {
 				return false
+			}
+			if !heldBefore {
+				v.origin[op.nte] = "alloc"
 			}
 		}
 	case "allocS":
 		prev, held := v.has[op.nte]
+		if !v.sInRange(op.stag) {
+			v.oorReq = true
+		}
 		r, err := v.a.AllocateWithSTag(op.nte, op.stag)
 		if err != nil {
 			v.h.logf("allocS(%s,%d)=err", op.nte, op.stag)
@@ -180,8 +224,17 @@ func (v *vlanSim) step(t fataler, op vlanOp) bool {
 					return false
 				}
 			}
+			// a pair handed out by AllocateWithSTag carries the requested outer tag (checked above) and an inner tag from CTagRange
+			if !(held && prev == p) && !v.cInRange(p.c) {
+				if v.h.fail(t, "out-of-range/AllocateWithSTag", "AllocateWithSTag(%s,%d) handed out %s: inner tag outside C[%d-%d]", op.nte, op.stag, p, v.cfg.CTagRange.Start, v.cfg.CTagRange.End) {
+					return false
+				}
+			}
 			if v.take(t, op.nte, p, "AllocateWithSTag") {
 				return false
+			}
+			if !(held && prev == p) {
+				v.origin[op.nte] = "allocS"
 			}
 		}
 	case "release":
@@ -224,7 +277,22 @@ func (v *vlanSim) step(t fataler, op vlanOp) bool {
 			if q, ok := v.has[n]; !ok || q != p {
 				if _, taken := v.holder[p]; !taken {
 					v.freedBy[p] = n
+					if !v.sInRange(p.s) {
+						v.oorFreed = true
+					}
 				}
+				delete(v.origin, n)
+			}
+		}
+		for _, r := range op.recs {
+			if r.s == 0 || r.c == 0 {
+				continue
+			}
+			if !v.inRange(pair{r.s, r.c}) {
+				v.oorLoad = true
+			}
+			if q, ok := v.has[r.id]; ok && q == (pair{r.s, r.c}) && (old[r.id] != q || v.origin[r.id] == "") {
+				v.origin[r.id] = "load" // a stored pair is whatever the store says (it may stem from an older, wider configuration)
 			}
 		}
 	}
@@ -264,8 +332,10 @@ func (v *vlanSim) check(t fataler, op vlanOp) bool {
 				return false
 			}
 		}
-		if !v.inRange(p) {
-			if v.h.fail(t, "out-of-range/"+opn, "after %s: %s holds %s outside S[%d-%d] C[%d-%d]", op, n, p, v.cfg.STagRange.Start, v.cfg.STagRange.End, v.cfg.CTagRange.Start, v.cfg.CTagRange.End) {
+		// range clause: pairs that plain Allocate handed out lie inside both ranges; pairs from AllocateWithSTag carry the
+		// requested outer tag and an inner tag of CTagRange; loaded pairs are what the store recorded
+		if (v.origin[n] == "alloc" && !v.inRange(p)) || (v.origin[n] == "allocS" && !v.cInRange(p.c)) {
+			if v.h.fail(t, "out-of-range/"+opn, "after %s: %s holds %s (obtained through %s) outside S[%d-%d] C[%d-%d]", op, n, p, v.origin[n], v.cfg.STagRange.Start, v.cfg.STagRange.End, v.cfg.CTagRange.Start, v.cfg.CTagRange.End) {
 				return false
 			}
 		}
@@ -295,6 +365,22 @@ func (v *vlanSim) drain(t fataler) bool {
 	for n, p := range v.has {
 		all[p] = n
 	}
+	// first plain Allocate until it refuses: whatever it hands out is inside the ranges and held by nobody
+	for i := 0; i <= v.capacity(); i++ {
+		id := fmt.Sprintf("drain-plain-%d", i)
+		r, err := v.a.Allocate(id)
+		if err != nil {
+			break
+		}
+		p := pair{r.STag, r.CTag}
+		if o, dup := all[p]; dup {
+			return !v.h.fail(t, "duplicate-pair/drain", "drain: Allocate(%s) returned %s which %s holds", id, p, o)
+		}
+		if !v.inRange(p) {
+			return !v.h.fail(t, "out-of-range/drain", "drain: Allocate(%s) returned %s outside S[%d-%d] C[%d-%d]", id, p, v.cfg.STagRange.Start, v.cfg.STagRange.End, v.cfg.CTagRange.Start, v.cfg.CTagRange.End)
+		}
+		all[p] = id
+	}
 	nc := int(v.cfg.CTagRange.End-v.cfg.CTagRange.Start) + 1
 	for st := v.cfg.STagRange.Start; st <= v.cfg.STagRange.End; st++ {
 		for i := 0; i <= nc; i++ {
@@ -313,7 +399,13 @@ func (v *vlanSim) drain(t fataler) bool {
 			all[p] = id
 		}
 	}
-	if len(all) != v.capacity() {
+	inside := 0
+	for p := range all {
+		if v.inRange(p) {
+			inside++
+		}
+	}
+	if inside != v.capacity() {
 		var missing []string
 		for st := v.cfg.STagRange.Start; st <= v.cfg.STagRange.End; st++ {
 			for ct := v.cfg.CTagRange.Start; ct <= v.cfg.CTagRange.End; ct++ {
@@ -322,7 +414,7 @@ func (v *vlanSim) drain(t fataler) bool {
 				}
 			}
 		}
-		return !v.h.fail(t, v.leakKind(), "drain: only %d of %d pairs are held or obtainable; nobody holds %v yet the allocator refuses to hand them out", len(all), v.capacity(), missing)
+		return !v.h.fail(t, v.leakKind(), "drain: only %d of %d pairs are held or obtainable; nobody holds %v yet the allocator refuses to hand them out", inside, v.capacity(), missing)
 	}
 	return true
 }
@@ -339,6 +431,25 @@ func genVlanCfg() *rapid.Generator[nexus.VLANAllocatorConfig] {
 			STagRange: nexus.VLANRange{Start: uint16(s0), End: uint16(s0 + ns - 1)},
 			CTagRange: nexus.VLANRange{Start: uint16(c0), End: uint16(c0 + nc - 1)},
 		}
+	})
+}
+
+// genTag draws a VLAN id: inside r, or - one time in `every` - just below / well below / just above / well above it.
+func genTag(r nexus.VLANRange, every int) *rapid.Generator[int] {
+	return rapid.Custom(func(t *rapid.T) int {
+		if rapid.IntRange(0, every-1).Draw(t, "outside") != 0 {
+			return rapid.IntRange(int(r.Start), int(r.End)).Draw(t, "tag")
+		}
+		var c []int
+		for _, x := range []int{int(r.Start) - 1, int(r.Start) - 2, 1, int(r.End) + 1, int(r.End) + 2, 4094} {
+			if x >= 1 && x <= 4094 && (x < int(r.Start) || x > int(r.End)) {
+				c = append(c, x)
+			}
+		}
+		if len(c) == 0 {
+			return int(r.Start)
+		}
+		return rapid.SampledFrom(c).Draw(t, "outsideTag")
 	})
 }
 
@@ -361,8 +472,10 @@ func TestPropVLANAllocator(t *testing.T) {
 			conflictLoads = rapid.IntRange(0, 2).Draw(rt, "conflictLoads") == 0
 		}
 		nte := rapid.SampledFrom(vlanNTEs)
-		stag := rapid.IntRange(int(cfg.STagRange.Start), int(cfg.STagRange.End))
-		ctag := rapid.IntRange(int(cfg.CTagRange.Start), int(cfg.CTagRange.End))
+		// outer tags: mostly inside STagRange, every fourth time one BELOW or ABOVE it (AllocateWithSTag is "for
+		// ISP-assigned S-TAGs" and checks no range; stored pairs may stem from an older, wider configuration)
+		stag := genTag(cfg.STagRange, 4)
+		ctag := genTag(cfg.CTagRange, 8) // stored pairs only
 		loads, conflicts := 0, 0
 		rt.Repeat(guard(&v.h.dead, map[string]func(*rapid.T){
 			"alloc": func(rt *rapid.T) {
@@ -428,6 +541,18 @@ func TestPropVLANAllocator(t *testing.T) {
 		if v.exhausted {
 			cls = append(cls, "vlan:exhausted")
 		}
+		if v.oorReq {
+			cls = append(cls, "vlan:out-of-range-stag-requested")
+		}
+		if v.oorLoad {
+			cls = append(cls, "vlan:out-of-range-pair-loaded")
+		}
+		if v.oorFreed {
+			cls = append(cls, "vlan:out-of-range-stag-pair-given-up")
+		}
+		if v.oorThenPlain {
+			cls = append(cls, "vlan:out-of-range-stag-pair-given-up-then-plain-allocate")
+		}
 		if v.nt {
 			cls = append(cls, "nt:reacquired-or-contended", "nt:"+cls[0])
 		}
@@ -436,7 +561,7 @@ func TestPropVLANAllocator(t *testing.T) {
 	})
 }
 
-// TestPropVLANExhaustive: every sequence of <= depth ops (quick 5, thorough 7) from a 12-op alphabet over
+// TestPropVLANExhaustive: every sequence of <= depth ops (quick 5, thorough 7) from a 13-op alphabet over
 // 2 outer x 2 inner tags and 3 NTEs: the bounded-exhaustive part of the quantifier.
 func TestPropVLANExhaustive(t *testing.T) {
 	depth := vstat.Scale(5, 7)
@@ -449,6 +574,7 @@ func TestPropVLANExhaustive(t *testing.T) {
 		{kind: "alloc", nte: "a"}, {kind: "alloc", nte: "b"}, {kind: "alloc", nte: "c"},
 		{kind: "allocS", nte: "a", stag: 100}, {kind: "allocS", nte: "a", stag: 101},
 		{kind: "allocS", nte: "b", stag: 100}, {kind: "allocS", nte: "b", stag: 101},
+		{kind: "allocS", nte: "a", stag: 99}, // an outer tag below STagRange
 		{kind: "release", nte: "a"}, {kind: "release", nte: "b"},
 		{kind: "load", recs: []loadRec{{"a", 100, 200}}},
 		{kind: "load", recs: []loadRec{{"b", 100, 200}}},
